@@ -345,6 +345,10 @@ pub fn run(ctx: &Ctx) -> Report {
         .into();
     rep.required_classes = vec![
         "last_transition_on_a_leap_record_with_rule_switch_there",
+        "junction_zone_first_correction_2",
+        "junction_zone_first_correction_0",
+        "junction_zone_step_0",
+        "junction_zone_step_2",
         "accepted",
         "refused",
         "index_out_of_range/first",
@@ -501,6 +505,29 @@ pub fn run(ctx: &Ctx) -> Report {
         let last_type = rng.below(2) as usize;
         let z = ZoneSpec { transitions: vec![(t_last - 5_000_000, 1 - last_type), (t_last, last_type)], types: vec![std, dst], leaps: table, rule: Some(RuleSpec::Alt(a)) };
         judge(l, &z, "rule_switch_on_the_last_transition", None);
+        // the same zone with one defect in its leap table: the leap clause is violated first, whatever the (now
+        // shifted) rule check would say - the error names the leap table
+        for (name, f) in [
+            ("junction_zone_first_correction_2", Box::new(|t: &mut Vec<(i64, i32)>| t[0].1 *= 2) as Box<dyn Fn(&mut Vec<(i64, i32)>)>),
+            ("junction_zone_first_correction_0", Box::new(|t: &mut Vec<(i64, i32)>| t[0].1 = 0)),
+            ("junction_zone_step_0", Box::new(|t: &mut Vec<(i64, i32)>| {
+                let k = t.len() - 1;
+                if k > 0 {
+                    t[k].1 = t[k - 1].1
+                } else {
+                    t[0].1 = -2 * t[0].1
+                }
+            })),
+            ("junction_zone_step_2", Box::new(|t: &mut Vec<(i64, i32)>| {
+                let k = t.len() - 1;
+                t[k].1 += if t[k].1 > 0 { 1 } else { -1 };
+            })),
+        ] {
+            let mut p = z.clone();
+            f(&mut p.leaps.0);
+            judge(l, &p, name, Some(E::InvalidLeapSecond));
+        }
+        l.op_n("TimeZone::new + TimeZoneRef::new", 8);
         if t_last == leaps[j].0 {
             l.class("last_transition_on_a_leap_record_with_rule_switch_there");
         }
